@@ -42,7 +42,18 @@ let check_C01 = check_with false oracle_C01
 let check_C12 = check_with false oracle_C12
 let check_C07 = check_with true oracle_names
 let check_C08 = check_with true oracle_names
+(* sessions behind an SSLRequest (inside TLS, or continued in plaintext after 'N'): no callback is ever handed a
+   query text longer than the limit (a concrete counterexample), then the turn-wise correspondence of C11 *)
+let check_C10_tls (fields : sexp list) : verdict * string option =
+  let c0 = case_of fields in
+  let o = obs_of fields in
+  let lim = eff_limit c0.sc_limit in
+  let too_long q = List.length q + 1 > int_of_z lim in
+  if List.exists (fun (_, _, e) -> match e with CbParse q -> too_long q | _ -> false) o.events then
+    (OracleFail (Printf.sprintf "a message above the configured limit of %s bytes was buffered and handed to the parse callback (session behind an SSLRequest)" (string_of_z lim)), None)
+  else P_c11.check fields
 let check_C10 fields =
+  if field_opt "tlsobs" fields <> None then check_C10_tls fields else
   (* lock-step cases: the per-message discipline; all cases: a startup packet within the limit is served *)
   check_with false (fun sc log -> if is_lock fields then oracle_C10 sc log else startup_served sc log) fields
 let check_C13 = check_with true (fun sc log -> oracle_C13 sc log && oracle_C13_turns sc log && oracle_C13_strict sc log)
